@@ -36,6 +36,7 @@ def fold(chk, results, pid):
         chk.solver_s += r["solver_s"]
         chk.replays_done += r["replays"]
         chk.functions.update(r["functions"])
+        chk.xc.merge(r.get("xcheck"))
         for e in r["errors"]:
             chk.harness_error(f"{r['case']}: {e}")
         for n in r["notes"]:
